@@ -26,6 +26,7 @@ const (
 	fPanic
 	fShortRead
 	fPanicInRead
+	fReadErrOnce  // the reader's FIRST Read fails; every later Read succeeds (a transient error)
 	fPanicInClose // the source reads fine, its Close panics
 	fCloseErr     // the source reads fine, its Close returns an error (not a fault: the error is ignored)
 	nFaultKinds
@@ -37,6 +38,10 @@ type c07Case struct {
 	Faults  []int   // per file: fOK..fPanicInRead
 	Par     int
 	CancelK int // cancel the context during the k-th resolver call (1-based); 0 = never
+	// Probe: what the resolver does when the compiler asks it for google/protobuf/descriptor.proto (which it does
+	// once per compilation to see whether the standard file is overridden): 0 = "not found" like any resolver
+	// without an override, 1 = another error, 2 = panic
+	Probe int `json:",omitempty"`
 }
 
 type panicVal struct{ File string }
@@ -45,6 +50,20 @@ type faultReader struct {
 	r     io.Reader
 	left  int
 	panic bool
+}
+
+// onceFailingReader fails its first Read and serves the content afterwards.
+type onceFailingReader struct {
+	r      io.Reader
+	failed bool
+}
+
+func (f *onceFailingReader) Read(p []byte) (int, error) {
+	if !f.failed {
+		f.failed = true
+		return 0, errors.New("injected transient read error")
+	}
+	return f.r.Read(p)
 }
 
 // faultCloser is a source that reads to the end and then misbehaves in Close.
@@ -143,6 +162,14 @@ func c07Check(c c07Case, r *ev.Rec) error {
 		if c.CancelK > 0 && k == c.CancelK {
 			cancel()
 		}
+		if path == "google/protobuf/descriptor.proto" {
+			switch c.Probe {
+			case 1:
+				return protocompile.SearchResult{}, errors.New("injected error for the descriptor.proto probe")
+			case 2:
+				panic(panicVal{path})
+			}
+		}
 		var idx int
 		if _, err := fmt.Sscanf(path, "f%d.proto", &idx); err != nil || idx >= c.N {
 			return protocompile.SearchResult{}, fmt.Errorf("not found: %s", path)
@@ -156,6 +183,8 @@ func c07Check(c c07Case, r *ev.Rec) error {
 			return protocompile.SearchResult{Source: &faultReader{r: strings.NewReader(files[path]), left: len(files[path]) / 2}}, nil
 		case fPanicInRead:
 			return protocompile.SearchResult{Source: &faultReader{r: strings.NewReader(files[path]), left: len(files[path]) / 2, panic: true}}, nil
+		case fReadErrOnce:
+			return protocompile.SearchResult{Source: &onceFailingReader{r: strings.NewReader(files[path])}}, nil
 		case fPanicInClose:
 			return protocompile.SearchResult{Source: faultCloser{Reader: strings.NewReader(files[path]), panics: true}}, nil
 		case fCloseErr:
@@ -192,6 +221,18 @@ func c07Check(c c07Case, r *ev.Rec) error {
 			if _, ok := pe.Value.(panicVal); !ok {
 				return fmt.Errorf("PanicError carries value %v (%T), not the injected panic value; plan %+v", pe.Value, pe.Value, c)
 			}
+		}
+	case !anyFault && c.CancelK == 0 && c.Probe == 2 && err == nil:
+		// recorded finding: a panic of the resolver during the descriptor.proto probe is swallowed
+		if kerr := r.KnownErr("probe-panic-swallowed", "the resolver panicked when asked for google/protobuf/descriptor.proto and Compile succeeded; plan %+v", c); kerr != nil {
+			return kerr
+		}
+		r.Label("known:probe-panic-swallowed")
+	case !anyFault && c.CancelK == 0 && c.Probe == 2:
+		// (should the panic surface one day, it must carry the value)
+		var pe protocompile.PanicError
+		if !errors.As(err, &pe) {
+			return fmt.Errorf("the descriptor.proto probe panicked and Compile failed with %v, which is not a PanicError; plan %+v", err, c)
 		}
 	case !anyFault && c.CancelK == 0:
 		if err != nil || nres != 1 {
@@ -246,7 +287,7 @@ func TestC07_Enum(t *testing.T) {
 		maxN = 4
 	}
 	ev.RunEnum(t, ev.Spec[c07Case]{ID: "C07", Name: "Enum",
-		Rule:  fmt.Sprintf("ALL fault plans over workspaces of 1-%d files in three import shapes (chain, fan-in, every-earlier-file): each file's resolver call is one of ok / error / panic(value) / reader failing mid-file / reader panicking mid-file / source whose Close panics / source whose Close returns an error (7^n plans; the last is not a fault) x parallelism {1,2,8} x cancellation during the k-th resolver call for every k in 0..n; oracle: the call returns within the watchdog, no panic escapes, a reachable fault => non-nil error, only-panic plans => errors.As(PanicError) carrying the injected value, fault-free uncancelled plans succeed, a cancelled fault-free call fails only with context.Canceled, and the goroutine count returns to its baseline within 5 s; non-trivial = a fault on an imported (not requested) file, or a cancellation in a multi-file workspace; distinct by plan", maxN),
+		Rule:  fmt.Sprintf("ALL fault plans over workspaces of 1-%d files in three import shapes (chain, fan-in, every-earlier-file): each file's resolver call is one of ok / error / panic(value) / reader failing mid-file / reader panicking mid-file / reader whose first Read alone fails / source whose Close panics / source whose Close returns an error (8^n plans; the last is not a fault), the resolver's answer to the compiler's probe for google/protobuf/descriptor.proto being not-found / another error / a panic in the plans with at most one other fault, x parallelism {1,2,8} x cancellation during the k-th resolver call for every k in 0..n; oracle: the call returns within the watchdog, no panic escapes, a reachable fault => non-nil error, only-panic plans => errors.As(PanicError) carrying the injected value, fault-free uncancelled plans succeed, a cancelled fault-free call fails only with context.Canceled, and the goroutine count returns to its baseline within 5 s; non-trivial = a fault on an imported (not requested) file, or a cancellation in a multi-file workspace; distinct by plan", maxN),
 		Check: c07Check}, true, func(yield func(c07Case) bool) {
 		for n := 1; n <= maxN; n++ {
 			for _, shape := range c07Shapes(n) {
@@ -261,10 +302,22 @@ func TestC07_Enum(t *testing.T) {
 						faults[i] = p % nFaultKinds
 						p /= nFaultKinds
 					}
-					for _, par := range []int{1, 2, 8} {
-						for k := 0; k <= n; k++ {
-							if !yield(c07Case{N: n, Edges: shape, Faults: faults, Par: par, CancelK: k}) {
-								return
+					nfaults := 0
+					for _, f := range faults {
+						if f != fOK {
+							nfaults++
+						}
+					}
+					probes := []int{0}
+					if nfaults <= 1 {
+						probes = []int{0, 1, 2} // the probe fault, alone or next to one other fault
+					}
+					for _, probe := range probes {
+						for _, par := range []int{1, 2, 8} {
+							for k := 0; k <= n; k++ {
+								if !yield(c07Case{N: n, Edges: shape, Faults: faults, Par: par, CancelK: k, Probe: probe}) {
+									return
+								}
 							}
 						}
 					}
@@ -276,7 +329,7 @@ func TestC07_Enum(t *testing.T) {
 
 func TestC07_Random(t *testing.T) {
 	ev.Run(t, ev.Spec[c07Case]{ID: "C07", Name: "Random", Quick: 800, Thorough: 40000,
-		Rule: "random import DAGs on 2-8 files with random fault plans (each fault kind 10%), parallelism 1-8 and cancellation at a random resolver call; same oracle as Enum",
+		Rule: "random import DAGs on 2-8 files with random fault plans (each fault kind 10%), parallelism 1-8, cancellation at a random resolver call and (1 in 3) a failing or panicking descriptor.proto probe; same oracle as Enum",
 		Gen: func(t *rapid.T) c07Case {
 			n := 2 + gen.Uniform(t, 7, "n")
 			c := c07Case{N: n, Edges: make([][]int, n), Faults: make([]int, n), Par: 1 + gen.Uniform(t, 8, "par")}
@@ -295,6 +348,7 @@ func TestC07_Random(t *testing.T) {
 			if gen.Pct(t, 40, "cancel") {
 				c.CancelK = 1 + gen.Uniform(t, n, "k")
 			}
+			c.Probe = gen.Pick(t, []int{0, 0, 0, 0, 1, 2}, "probe")
 			return c
 		},
 		Check: c07Check})
